@@ -10,6 +10,9 @@ const NS_NAMES: [&str; 4] = ["", "app", "crm", "lab"];
 const ENT_NAMES: [&str; 6] = ["P", "Q", "R", "S", "T", "U"];
 const FIELD_NAMES: [&str; 10] = ["a", "b", "c", "d", "e", "f", "g", "h", "k", "m"];
 
+pub const SYSTEM_FIELD_NAMES: [&str; 11] =
+    ["id", "room_id", "cdate", "mdate", "sys_peer", "sys_room", "_entity", "_json", "_binary", "verifying_key", "_signature"];
+
 struct Ctx {
     g: Gen,
     db: bool,
@@ -492,6 +495,9 @@ fn put_line(c: &mut Ctx, inst: usize, v: &Version, row: u64) -> Option<String> {
     let e = &v[i].ents[j];
     let mut vals = vec![];
     for f in &e.fields {
+        if SYSTEM_FIELD_NAMES.contains(&f.name.as_str()) {
+            continue; // a refused version may carry such a name; writes through system fields are not part of C15
+        }
         let required = !f.nullable && f.dflt.is_none() && !f.ty.is_ref();
         let give = required || c.g.chance(1, 2);
         if !give {
